@@ -266,6 +266,6 @@ def run(ctx, tier, res, tag=''):
 
 
 def main(tier, seed):
-    from ..ctx import Ctx
+    from ..ctx import run_all_configs
     res = Result('C10', tier, 'proof', seed)
-    return run(Ctx('le'), tier, res)
+    return run_all_configs(run, tier, res)
